@@ -2,3 +2,4 @@ pub mod g;
 pub mod g_exec;
 pub mod g_exec2;
 pub mod g_types;
+pub mod t;
